@@ -53,6 +53,7 @@ def cases(draw):
     sids = gen.all_ctx_ids(G)
     hist = []
     queries = []
+    pinned = set()
     for _ in range(draw(st.integers(8, 20))):
         k = draw(st.integers(0, 9))
         if k <= 4 or not queries:
@@ -65,7 +66,22 @@ def cases(draw):
             hist.append(draw(st.sampled_from(queries)))
         elif k == 6 and flagged:
             f = draw(st.sampled_from(flagged))
-            hist.append(["flip", f[:-1], f[-1]])
+            if draw(st.booleans()):
+                hist.append(["flip", f[:-1], f[-1]])
+                pinned.discard(tuple(f))
+            else:
+                # switch caching ON in every run, then assign a value (legal once the cells is cached)
+                hist.append(["setflag", f[:-1], f[-1], True])
+                pinned.add(tuple(f))
+                sp = G.space(tuple(f[:-1]))
+                found = G.find_cells(sp, f[-1]) if G.has_space(tuple(f[:-1])) else None
+                if found is not None and f[-1] in sp.cells:
+                    key = [draw(st.integers(0, 2)) for _ in found[1].params]
+                    op = ["set_value", f[:-1], f[-1], key, draw(st.integers(100, 150))]
+                    hist.append(op)
+                    gen.apply_edit_to_picture(G, op)
+                    for q in draw(st.permutations(queries))[:3]:
+                        hist.append(q)
         else:
             op = gen.gen_edit(draw, G, FEAT, kinds=EDITS)
             if op is not None and gen.apply_edit_to_picture(G, op):
@@ -98,6 +114,11 @@ def run_once(case, mask):
             if key in uncached_now:
                 uncached_now[key] = not uncached_now[key]
                 real.apply(["set_cached", op[1], op[2], not uncached_now[key]])
+        elif k == "setflag":
+            key = tuple(op[1]) + (op[2],)
+            if key in uncached_now:
+                uncached_now[key] = not op[3]
+                real.apply(["set_cached", op[1], op[2], op[3]])
         elif k == "rename_cells":
             res = real.apply(op)
             key = tuple(op[1]) + (op[2],)
